@@ -367,6 +367,19 @@ func (c *client) sendErrorToAll(err error) {
 	c.mutex.Unlock()
 }
 
+// failAllAndStopReadLoop reports the error to every waiting Execute call and marks the read loop as stopped
+// in the same critical section. An Execute call that registers afterwards starts a new read loop instead of
+// waiting on one that is about to exit.
+func (c *client) failAllAndStopReadLoop(err error) {
+	result := NewErrorExecutionResult(err)
+	c.mutex.Lock()
+	defer c.mutex.Unlock()
+	for runID := range c.runningStepResultEntries {
+		c.sendExecutionResult(runID, result)
+	}
+	c.readLoopRunning = false
+}
+
 func (c *client) handleWorkDoneMessage(runtimeMessage DecodedRuntimeMessage) {
 	var doneMessage WorkDoneMessage
 	var result ExecutionResult
@@ -414,7 +427,7 @@ func (c *client) handleErrorMessage(runtimeMessage DecodedRuntimeMessage) bool {
 	resultMsg := fmt.Errorf("step with run ID %q sent error message: %s", runtimeMessage.RunID, errorMessageStr)
 	c.logger.Errorf(resultMsg.Error())
 	if errMessage.ServerFatal {
-		c.sendErrorToAll(resultMsg)
+		c.failAllAndStopReadLoop(resultMsg)
 		return true // It's server fatal, so this is the last message from the server.
 	} else if errMessage.StepFatal {
 		if runtimeMessage.RunID == "" {
@@ -428,7 +441,10 @@ func (c *client) handleErrorMessage(runtimeMessage DecodedRuntimeMessage) bool {
 	return false
 }
 
-func (c *client) hasEntriesRemaining() bool {
+// stopReadLoopIfIdle marks the read loop as stopped if no Execute call is waiting for a result, and returns
+// whether it did. The decision and the flag update share one critical section: an Execute call either
+// registers before (and keeps the loop running) or afterwards (and starts a new loop).
+func (c *client) stopReadLoopIfIdle() bool {
 	c.mutex.Lock()
 	defer c.mutex.Unlock()
 	for _, resultEntry := range c.runningStepResultEntries {
@@ -436,19 +452,16 @@ func (c *client) hasEntriesRemaining() bool {
 		// Context: There is a fraction of time when the entry is still in the map
 		// following completion. It is set to a non-nil value when done.
 		if resultEntry.result == nil {
-			return true
+			return false
 		}
 	}
-	return false
+	c.readLoopRunning = false
+	return true
 }
 
 func (c *client) executeReadLoop(cborReader *cbor.Decoder) {
-	defer func() {
-		c.mutex.Lock()
-		defer c.mutex.Unlock()
-		c.readLoopRunning = false
-		c.wg.Done()
-	}()
+	// Every exit below clears readLoopRunning in the critical section that decides to exit.
+	defer c.wg.Done()
 	// Loop and get all messages
 	// The message is generic, so we must find the type and decode the full message next.
 	var runtimeMessage DecodedRuntimeMessage
@@ -460,7 +473,7 @@ func (c *client) executeReadLoop(cborReader *cbor.Decoder) {
 				err,
 			)
 			// This is fatal since the entire structure of the runtime message is invalid.
-			c.sendErrorToAll(fmt.Errorf("failed to read or decode runtime message (%w)", err))
+			c.failAllAndStopReadLoop(fmt.Errorf("failed to read or decode runtime message (%w)", err))
 			return
 		}
 		switch runtimeMessage.MessageID {
@@ -480,7 +493,7 @@ func (c *client) executeReadLoop(cborReader *cbor.Decoder) {
 			)
 		}
 		// The non-error exit condition is having no more entries remaining.
-		if !c.hasEntriesRemaining() {
+		if c.stopReadLoopIfIdle() {
 			return
 		}
 	}
